@@ -21,7 +21,7 @@ RULE = ('17 estimators x preprocessors {ndarray, nested list, counting callable,
         '(estimator, preprocessor kind, index form, method); deviation axis: a raising callable')
 ASSUMPTIONS = ['Formed arrays built from the indices are bit-identical to the arrays the harness passes as formed data, so '
                'every output is required to be bit-identical (no tolerance).']
-INDEX_FORMS = ['int64', 'int8', 'uint8', 'int32', 'uint64', 'list']
+INDEX_FORMS = ['int64', 'int8', 'uint8', 'int32', 'uint64', 'list', 'int64_F', 'int32_strided']
 PRE_KINDS = ['ndarray', 'list', 'callable', 'records']
 
 
@@ -51,6 +51,12 @@ def as_form(idx, form):
     idx = np.asarray(idx)
     if form == 'list':
         return idx.tolist()
+    if form == 'int64_F':                   # Fortran-ordered (what np.array([left, right]).T yields)
+        return np.asfortranarray(idx.astype(np.int64))
+    if form == 'int32_strided':             # non-contiguous view
+        wide = np.zeros(idx.shape[:-1] + (2 * idx.shape[-1],), dtype=np.int32) if idx.ndim > 1 else np.zeros(2 * len(idx), dtype=np.int32)
+        wide[..., ::2] = idx
+        return wide[..., ::2]
     return idx.astype(form)
 
 
@@ -411,6 +417,33 @@ def run_case(spec):
         except Exception as e:
             viol.append(V(site + '.fit', 'index_fit_raises', 'refit after replacing the preprocessor raised %s: %s'
                           % (type(e).__name__, str(e)[:150]), [pk, 'replaced_preprocessor']))
+    # ---- deviation: an index outside an array-like preprocessor raises INSIDE the preprocessor -> PreprocessorError everywhere
+    if pk in ('ndarray', 'list'):
+        e_o = zoo.make(name, ds, preprocessor=pre).fit(*index_args)
+        big = len(table) + 5
+        meths = [('transform', (np.array([0, big]),)), ('pair_distance', (np.array([[0, 1], [big, 2]]),)), ('pair_score', (np.array([[0, big]]),))]
+        if kind == 'pairs':
+            meths += [('predict', (np.array([[0, big]]),)), ('decision_function', (np.array([[big, 1]]),)),
+                      ('score', (np.array([[0, 1], [1, big]]), np.array([1, -1]))),
+                      ('calibrate_threshold', (np.array([[0, 1], [big, 2]]), np.array([1, -1])))]
+        elif kind in ('triplets', 'quads'):
+            t = np.arange(3 if kind == 'triplets' else 4)[None].copy()
+            t[0, -1] = big
+            meths += [('predict', (t,)), ('decision_function', (t,)), ('score', (t,))]
+        bad_train = np.array(index_args[0]).copy()
+        bad_train[(0,) * bad_train.ndim] = big
+        meths.append(('fit', (bad_train,) + tuple(index_args[1:])))
+        for meth, a in meths:
+            evals += 1
+            target = zoo.make(name, ds, preprocessor=pre) if meth == 'fit' else e_o
+            try:
+                getattr(target, meth)(*a)
+                viol.append(V(site + '.' + meth, 'preprocessor_error', 'index outside the %s preprocessor: %s returned normally' % (pk, meth), [pk, 'index_out_of_range']))
+            except PreprocessorError:
+                sigs.add((name, pk, 'index_out_of_range', meth))
+            except Exception as e:
+                viol.append(V(site + '.' + meth, 'preprocessor_error', 'index outside the %s preprocessor: %s raised %s instead of PreprocessorError'
+                              % (pk, meth, type(e).__name__), [pk, 'index_out_of_range']))
     # ---- deviation: an exception inside the callable surfaces as PreprocessorError from every method
     for exc_type in ((KeyError, RuntimeError, FileNotFoundError, ZeroDivisionError) if pk == 'callable' else ()):
         def boom(ids, exc_type=exc_type):
